@@ -7,13 +7,6 @@ PRELUDE = r'''
 pub uninterp spec fn cont_stack(c: Continuation) -> Stack;
 pub uninterp spec fn cont_regs(c: Continuation) -> (usize, (usize, usize), usize);
 pub open spec fn cont_wf(c: Continuation) -> bool { cont_stack(c).wf() && cont_stack(c).cells().len() == cont_stack(c).sp_spec() + 1 }
-impl Vm {
-    pub closed spec fn stack_spec(&self) -> Stack { self.stack }
-    pub closed spec fn regs(&self) -> (usize, (usize, usize), usize) { (self.ep, self.ip, self.bp) }
-    pub closed spec fn acc_spec(&self) -> VCell { self.acc }
-    pub closed spec fn heap_spec(&self) -> crate::vm::heap::Heap { self.heap }
-    pub closed spec fn globenv_spec(&self) -> crate::vm::environment::GlobalEnvironment { self.globenv }
-}
 '''
 
 C5 = ['C05']
